@@ -250,7 +250,9 @@ func expect(t tree, c call) expectation {
 	if (trailing(c.A) && t.isFile(a)) || (twoPath && trailing(c.B) && t.isFile(b)) {
 		e.Conflict = true
 	}
-	val := func(ok bool, tr tree, v string) []outcome { return []outcome{{OK: ok, Tree: tr, Val: v, ValSpec: true}} }
+	val := func(ok bool, tr tree, v string) []outcome {
+		return []outcome{{OK: ok, Tree: tr, Val: v, ValSpec: true}}
+	}
 	switch c.Op {
 	case "WriteFile":
 		e.Dest = []string{firstMissing(t, a)}
